@@ -116,6 +116,10 @@ def gen_library(rng, string_mode=False):
             hdr += "  " + m.decl() + "\n"
         hdr += "  int operator + (int k) const;\n  bool operator == (const %s &o) const;\n  %s &operator += (int k);\n  int operator () (int a, int b) const;\n  int operator [] (int i) const;\n" % (cname, cname)
         hdr += "  operator int () const;\n"
+        hdr += "  %s operator ++ (int);\n  %s &operator ++ ();\n  %s operator -- (int);\n" % (cname, cname, cname)
+        if string_mode:
+            hdr += ("  int sel(int key, const std::string &s);\n  int sel(int key, bool b);\n  int find(const std::string &s) const;\n  int find(const char *s) const;\n"
+                    "  int pick(const std::string &s, int k = 2) const;\n  int pick(bool b, int k = 2) const;\n")
         hdr += "  class Inner%d {\n  __published:\n    Inner%d(int q);\n    int twice() const;\n    int _q;\n  };\n" % (ci, ci)
         hdr += "  BoxI make_box(int v) const;\n  int read_box(const BoxI &b) const;\n  geo::Pt make_pt(int v) const;\n  int read_pt(const geo::Pt &p) const;\n"
         hdr += "  int _pub%d;\npublic:\n  int pubonly%d(int a);\n  unsigned long long _s;\n  long long _id;\n};\n" % (ci, ci)
@@ -149,6 +153,16 @@ def gen_library(rng, string_mode=False):
                  "int %s::operator () (int a, int b) const { return (int)(_s %% 100ULL) + a * 7 + b; }\n"
                  "int %s::operator [] (int i) const { return (int)(_s %% 50ULL) * 3 + i; }\n"
                  "%s::operator int () const { return (int)(_s %% 30011ULL); }\n") % (cname, cname, cname, cname, cname, cname, cname, cname, cname, cname)
+        impl += ("%(c)s %(c)s::operator ++ (int) { tr(\"%(c)s::operator++(int)\", _id, {}); %(c)s old(*this); _s += 5; return old; }\n"
+                 "%(c)s &%(c)s::operator ++ () { tr(\"%(c)s::operator++()\", _id, {}); _s += 7; return *this; }\n"
+                 "%(c)s %(c)s::operator -- (int) { tr(\"%(c)s::operator--(int)\", _id, {}); %(c)s old(*this); _s -= 3; return old; }\n") % {"c": cname}
+        if string_mode:
+            impl += ("int %(c)s::sel(int key, const std::string &s) { tr(\"%(c)s::sel(string)\", _id, {(long double)key}); _s += s.size(); return 1000 + key + (int)s.size(); }\n"
+                     "int %(c)s::sel(int key, bool b) { tr(\"%(c)s::sel(bool)\", _id, {(long double)key}); _s += 100; return 2000 + key + (b ? 1 : 0); }\n"
+                     "int %(c)s::find(const std::string &s) const { tr(\"%(c)s::find(string)\", _id, {}); return 3000 + (int)s.size(); }\n"
+                     "int %(c)s::find(const char *s) const { tr(\"%(c)s::find(cstr)\", _id, {}); return 4000 + (s ? (int)std::string(s).size() : -1); }\n"
+                     "int %(c)s::pick(const std::string &s, int k) const { tr(\"%(c)s::pick(string)\", _id, {(long double)k}); return 5000 + k * 10 + (int)s.size(); }\n"
+                     "int %(c)s::pick(bool b, int k) const { tr(\"%(c)s::pick(bool)\", _id, {(long double)k}); return 6000 + k * 10 + (b ? 1 : 0); }\n") % {"c": cname}
         impl += "%s::Inner%d::Inner%d(int q) : _q(q) {}\nint %s::Inner%d::twice() const { return _q * 2 + %d; }\n" % (cname, ci, ci, cname, ci, ci)
         impl += ("BoxI %s::make_box(int v) const { return BoxI(v + (int)(_s %% 7ULL)); }\nint %s::read_box(const BoxI &b) const { return b.get() * 3; }\n"
                  "geo::Pt %s::make_pt(int v) const { return geo::Pt(v - (int)(_s %% 5ULL)); }\nint %s::read_pt(const geo::Pt &p) const { return p.norm() + 1; }\n") % (cname, cname, cname, cname)
@@ -308,6 +322,30 @@ def gen_driver(lib, wrappers, rng, string_mode=False, promiscuous=False):
         w = first("%s::operator+=" % cn)
         if w:
             out.append("  { %s ow(9), od(9); %s *r = %s(&ow, 4); od += 4; chk(\"%s operator+= returns its object and updates it\", r == &ow && ow._s == od._s); }" % (cn, cn, w["name"], cn))
+        # postfix ++ / --: a new object holding the previous value comes back, the operand is advanced
+        for op, delta in (("++", "++"), ("--", "--")):
+            w = first("%s::operator%s" % (cn, op), lambda w: len(w["params"]) == 2)
+            if w:
+                out.append("  { %s ow(9), od(9); size_t mark = g_trace.size(); %s *rw = %s(&ow, 0); %s rd = od%s; chk(\"%s postfix %s returns the previous value in a new object\", rw != nullptr && rw != &ow && rw->_s == rd._s); chk(\"%s postfix %s advances the operand\", ow._s == od._s); trace_pair(\"%s postfix %s trace\", mark); if (rw != &ow) delete rw; }"
+                           % (cn, cn, w["name"], cn, delta, cn, op, cn, op, cn, op))
+        w = first("%s::operator++" % cn, lambda w: len(w["params"]) == 1)
+        if w:
+            out.append("  { %s ow(9), od(9); %s *rw = %s(&ow); ++od; chk(\"%s prefix ++ returns its object and advances it\", rw == &ow && ow._s == od._s); }" % (cn, cn, w["name"], cn))
+        # overload sets in which a std::string parameter competes with bool / char const *: the wrapper documented for the string overload runs it
+        for mname, nargs_extra in (("sel", "k"), ("find", ""), ("pick", "")):
+            for w in by_scoped.get("%s::%s" % (cn, mname), []):
+                if "string" not in w["proto"]:
+                    continue
+                for text in ('"abc"', '""', '"a longer piece of text"'):
+                    if mname == "sel":
+                        wcall, dcall = "%s(&ow, 5, %s)" % (w["name"], text), "od.sel(5, std::string(%s))" % text
+                    elif mname == "find":
+                        wcall, dcall = "%s(&ow, %s)" % (w["name"], text), "od.find(std::string(%s))" % text
+                    else:
+                        extra = ", 7" if len(w["params"]) == 3 else ""
+                        wcall, dcall = "%s(&ow, %s%s)" % (w["name"], text, extra), "od.pick(std::string(%s)%s)" % (text, extra)
+                    out.append("  { %s ow(9), od(9); size_t mark = g_trace.size(); chk(\"%s::%s string overload result\", %s == %s); chk(\"%s::%s string overload state\", ow._s == od._s); trace_pair(\"%s::%s string overload trace\", mark); }"
+                               % (cn, cn, mname, wcall, dcall, cn, mname, cn, mname))
         w = first("%s::operator()" % cn)
         if w:
             out.append("  { %s ow(9), od(9); chk(\"%s operator()\", %s(&ow, 2, 3) == od(2, 3)); }" % (cn, cn, w["name"]))
